@@ -86,6 +86,20 @@ func formUpload(key string, body []byte) ([]byte, string) {
 	return buf.Bytes(), mw.FormDataContentType()
 }
 
+// formUploadFields is formUpload with extra (name, value) form fields before the file.
+func formUploadFields(key string, body []byte, fields ...string) ([]byte, string) {
+	var buf bytes.Buffer
+	mw := multipart.NewWriter(&buf)
+	mw.WriteField("key", key)
+	for i := 0; i+1 < len(fields); i += 2 {
+		mw.WriteField(fields[i], fields[i+1])
+	}
+	fw, _ := mw.CreateFormFile("file", "upload.bin")
+	fw.Write(body)
+	mw.Close()
+	return buf.Bytes(), mw.FormDataContentType()
+}
+
 func c01CheckRead(r *rep.Reporter, kind, how, upload string, key string, exp c01Expect, status int, body []byte, hasBody bool, etag, clen string, hdr http.Header, sizeClass string) {
 	r.Count("reads_"+how, 1)
 	wantTag := drv.QuotedMD5(exp.body)
